@@ -10,6 +10,7 @@ RULE_TEXT = {
     "TS-7": "the strong count is only raised on a box whose state excludes Zero and Uninit (the other branches abort)",
     "TS-8": "count getters return the counters; Weak getters return 0 for destroyed objects",
     "TS-9": "every handle construction is counted (increment on the same box, fresh allocation with counters 1, dangling sentinel, or consumption of another handle); Rc::drop lowers its own count once",
+    "GUARD-1": "the Drop impl of a guard type of this crate empties every field whose own drop can run user code before it releases or frees the allocation it guards (field drop glue runs after Drop::drop, also while unwinding)",
     "GIVE-1": "an allocation given up by a handle-consuming API (last strong reference taken, implicit weak released) has had its value handed on or destroyed and its link table dropped",
     "UNW-1": "on every continuation that unwinds out of a user destructor no count is written, no table is written, nothing is moved out, and no release/free happens twice",
     "BRW-1": "no user code (destructor, trait call, handle drop) can run while a link-table guard is live",
@@ -48,7 +49,7 @@ RULE_TEXT = {
 
 PROPS = {
     "C01": ["TS-1", "TS-2", "GATE-1", "GATE-4", "GATE-6", "GATE-7", "GATE-8", "GATE-10", "SYM-1", "SYM-2", "SYM-3", "SYM-5"],
-    "C02": ["TS-1", "TS-3", "TS-4", "GATE-1", "GATE-10", "EFF-2", "UNW-1", "PROV-1", "SYM-3", "TS-6", "TS-9"],
+    "C02": ["TS-1", "TS-3", "TS-4", "GATE-1", "GATE-10", "EFF-2", "UNW-1", "PROV-1", "SYM-3", "TS-6", "TS-9", "GUARD-1"],
     "C03": ["GATE-5", "GATE-6", "GATE-8", "GATE-9", "GATE-10", "ITER-1", "EFF-4", "PROV-1", "TS-5", "SYM-1", "SYM-2", "SYM-3"],
     "C04": ["TS-3", "TS-4", "TS-5", "SYM-4", "API-1", "GIVE-1"],
     "C05": ["TS-2", "TS-3", "TS-4", "TS-7", "TS-8", "TS-9", "GATE-5", "EFF-2", "API-1"],
@@ -57,7 +58,7 @@ PROPS = {
     "C08": ["SYM-1", "SYM-2", "SYM-3", "SYM-4", "SYM-5", "EFF-4", "KEY-1"],
     "C09": ["ITER-1", "ITER-2", "ITER-3", "ITER-4", "TS-2", "KEY-1"],
     "C10": ["BRW-1", "BRW-2", "BRW-3", "TS-2", "TS-3", "SYM-3"],
-    "C11": ["UNW-1", "TS-2", "TS-6", "BRW-1"],
+    "C11": ["UNW-1", "TS-2", "TS-6", "BRW-1", "GUARD-1"],
     "C12": ["KILL-1", "EFF-2", "TS-1", "TS-9", "SYM-3"],
     "C14": ["GATE-2", "GATE-3", "SYM-2", "SYM-4"],
     "C15": ["CG-1", "GATE-1", "GATE-9", "ITER-5"],
